@@ -230,7 +230,7 @@ func (w *walker) step() {
 		return false
 	}
 	for _, j := range p.Jobs {
-		if tj, ok := trialByNameEarly(p, j.Name); ok && trialDone(tj) && j.Phase != "active" {
+		if tj, ok := trialByNameEarly(p, j.Name); ok && trialDone(tj) && j.Phase != "active" && cachedDone(s, j.Name) {
 			add(0.25, sim.Action{Op: "jobgone", Key: j.Name}) // a retained run object removed by something else (TTL, user)
 		}
 		if j.Phase == "active" {
@@ -372,6 +372,17 @@ func trialByNameEarly(p sim.Proj, n int) (sim.PTrial, bool) {
 		}
 	}
 	return sim.PTrial{}, false
+}
+
+// cachedDone: the trial cache already shows the trial completed. (With a cache that still shows it unfinished, the
+// unchanged controller itself re-creates a run object that somebody else removed: see DESIGN.md section 6, C07.)
+func cachedDone(s *sim.Sim, n int) bool {
+	for _, t := range s.CachedTrials() {
+		if t[0].(int) == n {
+			return t[1].(bool)
+		}
+	}
+	return false
 }
 
 func trialDone(t sim.PTrial) bool {
